@@ -134,6 +134,9 @@ class ForkRequest(Exception):
         self.refine = refine  # optional callable(path, branch:bool) applied to each child
 
 
+COVERED = set()   # (function name, block index) entered by any path of any executor in this process (bounds-cover-the-code check)
+
+
 class _Indet:
     """value that differs between merged paths and could not be reconciled; any use is an error"""
 
@@ -456,6 +459,7 @@ class Executor:
         fn = self.prog.fn(fname)
         if fn.get("external"):
             raise ExecError("cannot start in external function " + fname)
+        COVERED.add((fname, 0))
         env = {}
         if len(args) != len(fn["params"]):
             raise ExecError("arity mismatch calling %s: %d vs %d" % (fname, len(args), len(fn["params"])))
@@ -636,6 +640,7 @@ class Executor:
         fr.prev = fr.block
         fr.block = target
         fr.ip = 0
+        COVERED.add((fr.fn["name"], target))
         hit_stop = (fr.fn["name"], target) in self.stop_blocks and len(path.frames) == 1
         ms = path.dstate.get("merge_stops")
         hit_merge = bool(ms) and ms[-1] == (len(path.frames), fr.fn["name"], target)
@@ -1018,6 +1023,7 @@ class Executor:
             env[p["name"]] = a
         if len(path.frames) > 200:
             raise ExecError("call depth")
+        COVERED.add((fn["name"], 0))
         path.frames.append(Frame(fn, env, dest))
 
     def alias(self, fname, target):
